@@ -347,21 +347,25 @@ func (b Builder) pyCall(fn Expr, args []Expr) (ret Expr) {
 	pkg := b.Pkg
 	fn = b.Load(fn)
 	sig := fn.raw.Type.(*types.Signature)
-	params := sig.Params()
-	n := params.Len()
-	switch n {
-	case 0:
+	// Several Go declarations may be bound to one Python name with different
+	// arities (math.Log/LogOf, std.Next/NextEx): they share one object
+	// reference whose signature is that of the declaration compiled first.
+	// The call shape therefore follows the actual arguments, never sig.Params().
+	n := len(args)
+	for i, arg := range args {
+		if arg.kind == vkPyFuncRef { // a Python function passed as an argument
+			args[i] = b.Load(arg)
+		}
+	}
+	switch {
+	case n == 0 && !sig.Variadic():
 		call := pkg.pyFunc("PyObject_CallNoArgs", prog.tyCallNoArgs())
 		ret = b.Call(call, fn)
-	case 1:
-		if !sig.Variadic() {
-			call := pkg.pyFunc("PyObject_CallOneArg", prog.tyCallOneArg())
-			return b.Call(call, fn, args[0])
-		}
-		fallthrough
+	case n == 1 && !sig.Variadic():
+		call := pkg.pyFunc("PyObject_CallOneArg", prog.tyCallOneArg())
+		ret = b.Call(call, fn, args[0])
 	default:
 		call := pkg.pyFunc("PyObject_CallFunctionObjArgs", prog.tyCallFunctionObjArgs())
-		n = len(args)
 		callargs := make([]Expr, n+2)
 		callargs[0] = fn
 		copy(callargs[1:], args)
